@@ -53,9 +53,23 @@ inductive Hdr where
   | chunk | other | bad
   deriving DecidableEq, Repr
 
-/-- Header class of the bytes the harness uses for value `v`. -/
+
+/-- Length in bytes of the value the harness uses for id `v` (header included): ids from 1000 on carry their
+length, `(v - 1000) / 3`; smaller ids get a fixed pseudo-random length. -/
+def valLen (v : Nat) : Nat :=
+  if 1000 ≤ v then (v - 1000) / 3
+  else if v = 2 then 0 else if v = 5 then 1 else if v = 8 then 2
+  else if v % 7 = 0 then 10 + v % 8
+  else if v % 7 = 5 then 200 + (v * 13) % 200
+  else if v % 7 = 6 then 1000 + (v * 131) % 3000
+  else 10 + (v * 37) % 110
+
+/-- length of the AES-GCM-SIV tag appended to the value in a record file -/
+def tagLen : Nat := 16
+
+/-- Header class of the bytes the harness uses for value `v` (fewer than 3 bytes never parse). -/
 def hdrClass (v : Nat) : Hdr :=
-  if v % 3 = 0 then .chunk else if v % 3 = 1 then .other else .bad
+  if valLen v < 3 then .bad else if v % 3 = 0 then .chunk else if v % 3 = 1 then .other else .bad
 
 /-- A record file: complete ciphertext of `v`, or its first `n` bytes (`n <` full length). -/
 inductive File where
@@ -81,13 +95,19 @@ structure Cfg where
   cleanupMin : Nat
   /-- feature `encrypt-records` -/
   encrypt : Bool
+  /-- `max_value_bytes` (`MAX_PACKET_SIZE` for a node) -/
+  maxValueBytes : Nat
   deriving Repr
 
 /-- The configuration as shipped: constants and the feature flag regenerated from the Rust source. -/
-def Cfg.shipped (maxRecords cacheSize : Nat) : Cfg :=
-  { maxRecords, cacheSize,
+def Cfg.shippedV (maxRecords cacheSize maxValueBytes : Nat) : Cfg :=
+  { maxRecords, cacheSize, maxValueBytes,
     cleanupMin := Gen.Store.maxRecordsCount / Gen.Store.cleanupDivisor,
     encrypt := Gen.Store.shippedEncrypt }
+
+/-- as shipped, with the node's `max_value_bytes = MAX_PACKET_SIZE` -/
+def Cfg.shipped (maxRecords cacheSize : Nat) : Cfg :=
+  Cfg.shippedV maxRecords cacheSize Gen.Store.maxPacketSize
 
 /-- `NodeRecordStoreConfig::default()` capacities. -/
 def Cfg.default : Cfg := Cfg.shipped Gen.Store.maxRecordsCount Gen.Store.maxRecordsCacheSize
@@ -322,9 +342,29 @@ def metrics (cfg : Cfg) (s : St) (k : Nat) : Metrics :=
 
 /-! ## Crash and restart -/
 
-/-- does the start-up scan keep this file? (decrypts and the 3-byte header parses) -/
-def scanType (encrypt : Bool) (f : File) : Option RType :=
-  match readFile encrypt f with
+/-- length of a record file -/
+def fileLen (encrypt : Bool) : File → Nat
+  | .full v => valLen v + (if encrypt then tagLen else 0)
+  | .torn _ n => n
+
+def readLen : Read → Nat
+  | .whole v => valLen v
+  | .part _ n => n
+
+/-- the size test of the start-up scan, as far as the source has one (regenerated flags): what it measures
+(file length or decrypted value length) and the comparison with `max_value_bytes` -/
+def oversized (cfg : Cfg) (f : File) : Bool :=
+  Gen.Store.scanDropsOversized &&
+    (let n := if Gen.Store.scanSizeOnFile then fileLen cfg.encrypt f
+              else match readFile cfg.encrypt f with
+                | some r => readLen r
+                | none => 0
+     if Gen.Store.scanSizeStrict then decide (cfg.maxValueBytes < n) else decide (cfg.maxValueBytes ≤ n))
+
+/-- does the start-up scan keep this file? (passes the size test if any, decrypts, and the 3-byte header parses) -/
+def scanType (cfg : Cfg) (f : File) : Option RType :=
+  if oversized cfg f then none else
+  match readFile cfg.encrypt f with
   | none => none
   | some r =>
     match hdrOf r with
@@ -332,22 +372,26 @@ def scanType (encrypt : Bool) (f : File) : Option RType :=
     | .other => some (.nonChunk r)
     | .bad => none
 
-def scanIndex (encrypt : Bool) : List (Nat × File) → List (Nat × RType)
+def scanIndex (cfg : Cfg) : List (Nat × File) → List (Nat × RType)
   | [] => []
   | (k, f) :: rest =>
-    match scanType encrypt f with
-    | some rt => (k, rt) :: scanIndex encrypt rest
-    | none => scanIndex encrypt rest
+    match scanType cfg f with
+    | some rt => (k, rt) :: scanIndex cfg rest
+    | none => scanIndex cfg rest
+
+/-- `RecordStore::put` (the unverified kad path) answers `ValueTooLarge`; `put_verified` has no size test -/
+def kadPutTooLarge (cfg : Cfg) (v : Nat) : Bool :=
+  if Gen.Store.putSizeInclusive then decide (cfg.maxValueBytes ≤ valLen v) else decide (cfg.maxValueBytes < valLen v)
 
 /-- `with_config` on an existing directory: `update_records_from_an_existing_store` (files that fail
 are deleted), distance index and farthest rebuilt, payment count restored, one flush spawned. -/
 def restart (cfg : Cfg) (dist : Nat → Nat) (disk : List (Nat × File)) (hist : Option Nat) (nextId : Nat) : St :=
-  let index := scanIndex cfg.encrypt disk
+  let index := scanIndex cfg disk
   { index := index,
     byDist := index.foldr (fun e acc => insert (dist e.1) e.1 acc) [],
     farthest := calcFarthest dist index,
     cache := [], clock := 0,
-    disk := disk.filter (fun e => (scanType cfg.encrypt e.2).isSome),
+    disk := disk.filter (fun e => (scanType cfg e.2).isSome),
     hist := hist,
     tasks := [(nextId, .flush (hist.getD 0))], notes := [], nextId := nextId + 1,
     payments := hist.getD 0, range := none }
